@@ -206,11 +206,19 @@ def propPost (n : Net) (st1 : HState) (slot : Nat) : HState :=
     { st1 with store := if n.epoch slot = 0 then st1.store else st1.store.reset (n.epoch slot - 1), fetchFirst := true }
   else st1
 
+/-- `processFetching` reports `false` exactly when the beacon call failed (no active indices ⇒ `nil` error ⇒ `true`) -/
+def FetchRes.failed : FetchRes → Bool
+  | .fail => true
+  | _ => false
+
+/-- ticker branch.  Fetch-first path: `indicesChanged = false; fetchFirst = !processFetching(…)` — `fetchFirst` stays
+    set when the fetch failed, so the fetch is retried at the next slot (`propFetch` does not read or write the flags,
+    so assigning `fetchFirst` before the call is the same as assigning it after). -/
 def propTick (n : Net) (st : HState) (slot clock : Nat) (r1 : FetchRes) : HState × List Atom :=
   let epoch := n.epoch slot
   let (st1, out) :=
     if st.fetchFirst then
-      let (s, o) := propFetch { st with fetchFirst := false, indicesChanged := false } epoch r1
+      let (s, o) := propFetch { st with fetchFirst := r1.failed, indicesChanged := false } epoch r1
       (s, o ++ propProcessExecution s epoch slot clock)
     else
       let o0 := propProcessExecution st epoch slot clock
@@ -426,12 +434,33 @@ def attTickOld (n : Net) (st : HState) (slot clock : Nat) (r1 r2 : FetchRes) : H
       (s, o0 ++ o)
   (attPost n st1 slot, out)
 
+/-- proposer ticker branch before fix f167f5eb9: `fetchFirst = false` BEFORE `processFetching`, whose failure was only
+    logged — a failed first fetch was not retried until the next epoch / reorg / indices change -/
+def propTickOld (n : Net) (st : HState) (slot clock : Nat) (r1 : FetchRes) : HState × List Atom :=
+  let epoch := n.epoch slot
+  let (st1, out) :=
+    if st.fetchFirst then
+      let (s, o) := propFetch { st with fetchFirst := false, indicesChanged := false } epoch r1
+      (s, o ++ propProcessExecution s epoch slot clock)
+    else
+      let o0 := propProcessExecution st epoch slot clock
+      if st.indicesChanged then
+        let (s, o) := propFetch { st with indicesChanged := false } epoch r1
+        (s, o0 ++ o)
+      else (st, o0)
+  (propPost n st1 slot, out)
+
+def propStepOld (n : Net) (st : HState) : Event → HState × List Atom
+  | .tick slot clock r1 _ => propTickOld n st slot clock r1
+  | .reorg slot _ cur => (propReorg n st slot cur, [])
+  | .indices _ => (propIndices st, [])
+
 def stepOld (k : Kind) (n : Net) (st : HState) (e : Event) : HState × List Atom :=
   match k, e with
   | .att, .tick slot clock r1 r2 => attTickOld n st slot clock r1 r2
   | .att, .reorg slot prev cur => (attReorg n st slot prev cur, [])
   | .att, .indices clock => (attIndices n st clock, [])
-  | .prop, e => propStep n st e
+  | .prop, e => propStepOld n st e
   | .sync, e => syncStep n st e
 
 def runFromOld (k : Kind) (n : Net) : HState → List Event → List Atom
